@@ -139,3 +139,38 @@ package config
 //@   ensures[fields-of-the-same-definition] c != nil ==> result == c.GetSamplingFields()
 //@   ensures[nothing-configured] c == nil ==> len(result) == 0
 //@   modifies nothing
+
+// ---- C08: "If the field is not present, then the condition will not match" (rules.md). The typed
+// comparison functions built at start-up (closures stored in condition.Matches) receive `exists`; every one
+// of them except the exists / not-exists operators must answer false for an absent field.
+//@ contract config.(*RulesBasedSamplerCondition).setMatchesFunction$lit1 props C08
+//@   ensures[exists-operator] result == exists
+//@   modifies nothing
+//@ contract config.(*RulesBasedSamplerCondition).setMatchesFunction$lit2 props C08
+//@   ensures[not-exists-operator] result == !exists
+//@   modifies nothing
+//@ contract config.setCompareOperators$lit* props C08 havoc
+//@   assert only none
+//@   requires[an-absent-field-has-no-value] !exists ==> isNil(spanValue)
+//@   ensures[absent-field-never-matches] !exists ==> !result
+//@ contract config.setMatchStringBasedOperators$lit* props C08 havoc
+//@   assert only none
+//@   requires[an-absent-field-has-no-value] !exists ==> isNil(spanValue)
+//@   ensures[absent-field-never-matches] !exists ==> !result
+//@ contract config.setInBasedOperators$lit* props C08 havoc
+//@   assert only none
+//@   requires[an-absent-field-has-no-value] !exists ==> isNil(spanValue)
+//@   ensures[absent-field-never-matches] !exists ==> !result
+//@ contract config.setRegexStringMatchOperator$lit* props C08 havoc
+//@   assert only none
+//@   requires[an-absent-field-has-no-value] !exists ==> isNil(spanValue)
+//@   ensures[absent-field-never-matches] !exists ==> !result
+// the conversions used by the typed operators: nothing converts from an absent (nil) value
+//@ contract config.tryConvertToInt props C08
+//@   arith wraps
+//@   ensures[nil-does-not-convert] isNil(v) ==> !result1
+//@   modifies nothing
+//@ contract config.tryConvertToFloat props C08
+//@   arith wraps
+//@   ensures[nil-does-not-convert] isNil(v) ==> !result1
+//@   modifies nothing
